@@ -114,9 +114,8 @@ Definition bip39_valid (idx : list N) : Prop :=
 (* bin(i)[2:].zfill(11) *)
 Definition bits11 (i : N) : digs := zfill 11 (digits 2 i).
 
-(* the checksum comparison on word indices (everything after the word-count test) *)
-Definition mnemonic_check (idx : list N) : bool :=
-  let b := flat_map bits11 idx in
+(* the checksum comparison on the bit string b (everything after ''.join(idx)) *)
+Definition check_bits (b : digs) : bool :=
   let l := length b in
   let d := firstn (l / 33 * 32) b in
   let h := skipn (l - (l + 32) / 33) b in             (* b[-l // 33:]  ( -l // 33 = -ceil(l/33) ) *)
@@ -130,6 +129,9 @@ Definition mnemonic_check (idx : list N) : bool :=
           list_eqb N.eqb h nh
       end
   end.
+
+(* the checksum comparison on word indices (everything after the word-count test) *)
+Definition mnemonic_check (idx : list N) : bool := check_bits (flat_map bits11 idx).
 
 Fixpoint all_some {A} (l : list (option A)) : option (list A) :=
   match l with
